@@ -45,7 +45,13 @@ func (x *X) enc(v ssa.Value, at ssa.Instruction) []Atom {
 	if x.depth > 300 {
 		return unknown(v.Pos(), "too deep")
 	}
+	v = x.res(v)
 	switch t := v.(type) {
+	case *ssa.BinOp:
+		// string concatenation
+		if t.Op == token.ADD && isByteSeq(t.Type()) {
+			return append(append([]Atom(nil), x.enc(t.X, at)...), x.enc(t.Y, at)...)
+		}
 	case *ssa.Const:
 		if t.Value == nil {
 			return nil
@@ -72,12 +78,38 @@ func (x *X) enc(v ssa.Value, at ssa.Instruction) []Atom {
 			out := append([]Atom(nil), x.enc(cc.Args[1], t)...)
 			return append(out, x.valueAtom(cc.Args[2], w, order, t))
 		}
-		if tail, ok := x.inlineAppender(t); ok {
-			return append(append([]Atom(nil), x.enc(cc.Args[0], t)...), tail...)
+		if copiesBytes(cc.StaticCallee()) && len(cc.Args) >= 1 {
+			return x.enc(cc.Args[0], t)
+		}
+		if stdName(cc.StaticCallee()) == "slices.Concat" && len(cc.Args) == 1 {
+			// slices.Concat(a, b, …): the variadic argument is a slice over a literal array
+			if sl, ok := cc.Args[0].(*ssa.Slice); ok {
+				if al := tableOf(sl); al != nil {
+					if elems, ok := x.tableElems(al, t); ok {
+						var out []Atom
+						for _, e := range elems {
+							out = append(out, x.enc(e, t)...)
+						}
+						return out
+					}
+				}
+			}
+		}
+		if tail, bufArg, ok := x.inlineAppender(t); ok {
+			if bufArg == nil {
+				return tail
+			}
+			return append(append([]Atom(nil), x.enc(bufArg, t)...), tail...)
 		}
 		return x.nested(t, t.Pos())
 	case *ssa.Extract:
 		if call, ok := t.Tuple.(*ssa.Call); ok && t.Index == 0 {
+			if tail, bufArg, ok := x.inlineAppender(call); ok {
+				if bufArg == nil {
+					return tail
+				}
+				return append(append([]Atom(nil), x.enc(bufArg, call)...), tail...)
+			}
 			return x.nested(call, t.Pos())
 		}
 	case *ssa.Phi:
@@ -88,7 +120,7 @@ func (x *X) enc(v ssa.Value, at ssa.Instruction) []Atom {
 		if n, ok := constI(t.Len); ok {
 			return x.bufContent(t, n, at)
 		}
-		return unknown(t.Pos(), "make with variable length %s", x.exprString(t.Len, 0))
+		return x.symBufContent(t, at)
 	case *ssa.Convert:
 		if isByteSeq(t.X.Type()) {
 			return x.enc(t.X, at)
@@ -97,6 +129,9 @@ func (x *X) enc(v ssa.Value, at ssa.Instruction) []Atom {
 		return x.enc(t.X, at)
 	case *ssa.UnOp:
 		if t.Op == token.MUL {
+			if cellOf(t.X) {
+				return x.encCell(t.X, t)
+			}
 			if p, ok := x.Path(t.X); ok {
 				return []Atom{{Kind: "bytes", Field: p, Val: t, Pos: t.Pos(), At: t}}
 			}
@@ -120,6 +155,12 @@ func (x *X) valueAtom(v ssa.Value, w int, order string, at ssa.Instruction) Atom
 		a.Order = ""
 		if f == "" && strings.HasPrefix(e, "const ") {
 			a.Kind, a.Expr = "const", e[6:]
+		} else if f == "" {
+			if _, isK := x.res(v).(*ssa.Const); !isK {
+				if k, ok := x.FoldConst(v); ok {
+					a.Kind, a.Expr = "const", fmt.Sprint(k)
+				}
+			}
 		}
 	}
 	return a
@@ -139,6 +180,7 @@ func (x *X) nested(call *ssa.Call, pos token.Pos) []Atom {
 		a.Expr = "dynamic call"
 	}
 	if subject != nil {
+		subject = x.res(subject)
 		if p, ok := x.Path(subject); ok {
 			a.Field = p
 		} else if p, ok := x.basePath(subject); ok {
@@ -252,13 +294,54 @@ func (x *X) collectWrites(buf ssa.Value, base int64, out *[]bwrite, bad *string)
 				*out = append(*out, bwrite{st, base + idx, 1, x.valueAtom(st.Val, 1, "", st)})
 			}
 		case *ssa.Store:
-			if y.Val == buf {
+			if y.Val == buf && cellOf(y.Addr) && x.cellInfoOf(y.Addr).bad == "" {
+				// the buffer variable is captured by a closure: it lives in memory and
+				// every load of it (until it is re-assigned) is this buffer
+				for _, al := range x.cellAliases(y) {
+					x.collectWrites(al, base, out, bad)
+				}
+				continue
+			}
+			if y.Val == buf && !storedForConcat(y) {
 				*bad = "fixed buffer stored into a variable"
 			}
 		case *ssa.MakeClosure:
 			*bad = "fixed buffer captured by a closure"
 		}
 	}
+}
+
+// storedForConcat: the store puts a slice into the variadic argument array of
+// slices.Concat, which only reads it.
+func storedForConcat(st *ssa.Store) bool {
+	ia, ok := st.Addr.(*ssa.IndexAddr)
+	if !ok {
+		return false
+	}
+	al, ok := ia.X.(*ssa.Alloc)
+	if !ok || al.Comment != "varargs" || al.Referrers() == nil {
+		return false
+	}
+	used := false
+	for _, r := range *al.Referrers() {
+		switch y := r.(type) {
+		case *ssa.IndexAddr, *ssa.DebugRef:
+		case *ssa.Slice:
+			if y.Referrers() == nil {
+				return false
+			}
+			for _, rr := range *y.Referrers() {
+				call, isCall := rr.(*ssa.Call)
+				if !isCall || stdName(call.Call.StaticCallee()) != "slices.Concat" {
+					return false
+				}
+				used = true
+			}
+		default:
+			return false
+		}
+	}
+	return used
 }
 
 // bufContent: the layout of a fixed-size buffer as it is at instruction at.
@@ -278,7 +361,21 @@ func (x *X) bufContent(buf ssa.Value, n int64, at ssa.Instruction) []Atom {
 				switch y := r.(type) {
 				case *ssa.Slice:
 					if y != sl {
-						bad = "backing array sliced twice"
+						// another view of the same array: its writes land in the buffer too
+						lo := int64(0)
+						if y.Low != nil {
+							k, isK := constI(y.Low)
+							if !isK {
+								bad = "backing array sliced at a variable offset"
+								continue
+							}
+							lo = k
+						}
+						if y.Max != nil {
+							bad = "backing array sliced with a capacity bound"
+							continue
+						}
+						x.collectWrites(y, lo, &ws, &bad)
 					}
 				case *ssa.IndexAddr:
 					idx, ok := constI(y.Index)
@@ -392,6 +489,12 @@ func (x *X) encPhi(p *ssa.Phi) []Atom {
 	term := func(b *ssa.BasicBlock) ssa.Instruction { return b.Instrs[len(b.Instrs)-1] }
 	if len(backs) > 0 && len(entries) == 1 {
 		pre := x.enc(p.Edges[entries[0]], term(pb.Preds[entries[0]]))
+		if envs, ok := x.tableLoop(pb); ok && len(backs) == 1 {
+			if body, ok := x.unroll(pb, envs, func() []Atom { return x.minusPrefix(p.Edges[backs[0]], p) }); ok {
+				return append(pre, body...)
+			}
+			return append(pre, unknown(p.Pos(), "loop over a constant table does not extend the buffer by appending")...)
+		}
 		rep := x.repeatOf(pb, p.Pos())
 		for _, i := range backs {
 			b := x.minusPrefix(p.Edges[i], p)
@@ -439,6 +542,7 @@ func (x *X) encPhi(p *ssa.Phi) []Atom {
 
 // minusPrefix returns what v appends after φ p, or nil if v does not extend p.
 func (x *X) minusPrefix(v ssa.Value, p *ssa.Phi) []Atom {
+	v = x.res(v)
 	if v == ssa.Value(p) {
 		return []Atom{}
 	}
@@ -461,12 +565,37 @@ func (x *X) minusPrefix(v ssa.Value, p *ssa.Phi) []Atom {
 			}
 			return append(pre, x.valueAtom(t.Call.Args[2], w, order, t))
 		}
-		if tail, ok := x.inlineAppender(t); ok {
-			pre := x.minusPrefix(t.Call.Args[0], p)
+		if copiesBytes(t.Call.StaticCallee()) && len(t.Call.Args) >= 1 {
+			return x.minusPrefix(t.Call.Args[0], p)
+		}
+		if tail, bufArg, ok := x.inlineAppender(t); ok && bufArg != nil {
+			pre := x.minusPrefix(bufArg, p)
 			if pre == nil {
 				return nil
 			}
 			return append(pre, tail...)
+		}
+	case *ssa.Extract:
+		if call, ok := t.Tuple.(*ssa.Call); ok && t.Index == 0 {
+			if tail, bufArg, ok := x.inlineAppender(call); ok && bufArg != nil {
+				pre := x.minusPrefix(bufArg, p)
+				if pre == nil {
+					return nil
+				}
+				return append(pre, tail...)
+			}
+		}
+	case *ssa.Convert:
+		if isByteSeq(t.X.Type()) && isByteSeq(t.Type()) {
+			return x.minusPrefix(t.X, p)
+		}
+	case *ssa.BinOp:
+		if t.Op == token.ADD && isByteSeq(t.Type()) {
+			pre := x.minusPrefix(t.X, p)
+			if pre == nil {
+				return nil
+			}
+			return append(pre, x.enc(t.Y, t)...)
 		}
 	case *ssa.Phi:
 		pb := t.Block()
@@ -523,6 +652,13 @@ func (x *X) minusPrefix(v ssa.Value, p *ssa.Phi) []Atom {
 		if pre == nil {
 			return nil
 		}
+		if envs, ok := x.tableLoop(pb); ok && len(back) == 1 {
+			body, ok := x.unroll(pb, envs, func() []Atom { return x.minusPrefix(back[0], t) })
+			if !ok {
+				return nil
+			}
+			return append(pre, body...)
+		}
 		rep := x.repeatOf(pb, t.Pos())
 		for _, b := range back {
 			bb := x.minusPrefix(b, t)
@@ -537,8 +673,56 @@ func (x *X) minusPrefix(v ssa.Value, p *ssa.Phi) []Atom {
 }
 
 // loopBound returns the value the loop counter is compared against in the
-// header of a loop (the Y of `i < Y`, whichever side it is written on).
+// header of a loop (the Y of `i < Y`, whichever side it is written on). A
+// rotated loop (range-over-int: entry test, body, increment, test at the
+// latch) is recognised by the test `φ+1 < Y` in its latch block.
 func loopBound(hb *ssa.BasicBlock) (bound, counter ssa.Value, ok bool) {
+	if len(hb.Succs) == 2 && hb.Succs[0] != hb {
+		if b, c, ok := headerBound(hb); ok {
+			return b, c, true
+		}
+	}
+	for _, p := range hb.Preds {
+		if !hb.Dominates(p) {
+			continue
+		}
+		iff, isIf := p.Instrs[len(p.Instrs)-1].(*ssa.If)
+		if !isIf || len(p.Succs) != 2 || p.Succs[0] != hb {
+			continue
+		}
+		cmp, isCmp := iff.Cond.(*ssa.BinOp)
+		if !isCmp {
+			continue
+		}
+		next := func(v ssa.Value) *ssa.Phi {
+			b, isB := v.(*ssa.BinOp)
+			if !isB || b.Op != token.ADD {
+				return nil
+			}
+			if k, isK := constI(b.Y); !isK || k != 1 {
+				return nil
+			}
+			phi, isPhi := b.X.(*ssa.Phi)
+			if !isPhi || phi.Block() != hb {
+				return nil
+			}
+			return phi
+		}
+		switch cmp.Op {
+		case token.LSS:
+			if phi := next(cmp.X); phi != nil {
+				return cmp.Y, phi, true
+			}
+		case token.GTR:
+			if phi := next(cmp.Y); phi != nil {
+				return cmp.X, phi, true
+			}
+		}
+	}
+	return nil, nil, false
+}
+
+func headerBound(hb *ssa.BasicBlock) (bound, counter ssa.Value, ok bool) {
 	iff, isIf := hb.Instrs[len(hb.Instrs)-1].(*ssa.If)
 	if !isIf {
 		return nil, nil, false
@@ -582,8 +766,439 @@ func loopBound(hb *ssa.BasicBlock) (bound, counter ssa.Value, ok bool) {
 	return nil, nil, false
 }
 
+// LoopIter describes a counted loop: Idx is the SSA value that equals the
+// iteration number plus From in every iteration (i for `for i := a; i < n; i++`,
+// the index of a range loop), From its first value and Bound the value it
+// stays below.
+type LoopIter struct {
+	Idx   ssa.Value
+	From  ssa.Value // nil when FromK is set
+	FromK int64
+	Bound ssa.Value
+}
+
+// Iter recognises the counted loop headed by hb: the counter is a φ of the
+// header that starts at From and is incremented by exactly 1 on every back
+// edge, and the loop runs while counter < Bound (test in the header, or in
+// the latch of a rotated loop whose entry is guarded by the same test).
+func (x *X) Iter(hb *ssa.BasicBlock) (LoopIter, bool) {
+	entryOf := func(phi *ssa.Phi) (ssa.Value, bool) {
+		var entry ssa.Value
+		for i, p := range hb.Preds {
+			if hb.Dominates(p) {
+				// back edge: φ + 1
+				inc, isB := phi.Edges[i].(*ssa.BinOp)
+				if !isB || inc.Op != token.ADD {
+					return nil, false
+				}
+				k, isK := constI(inc.Y)
+				if !isK || k != 1 || inc.X != ssa.Value(phi) {
+					return nil, false
+				}
+				continue
+			}
+			if entry != nil {
+				return nil, false
+			}
+			entry = phi.Edges[i]
+		}
+		return entry, entry != nil
+	}
+	lessThan := func(iff *ssa.If, ctr ssa.Value) (ssa.Value, bool) {
+		cmp, _ := iff.Cond.(*ssa.BinOp)
+		if cmp == nil {
+			return nil, false
+		}
+		switch {
+		case cmp.Op == token.LSS && cmp.X == ctr:
+			return cmp.Y, true
+		case cmp.Op == token.GTR && cmp.Y == ctr:
+			return cmp.X, true
+		}
+		return nil, false
+	}
+	// (1) test in the header: `for i := a; i < n; i++` and range loops
+	if iff, isIf := hb.Instrs[len(hb.Instrs)-1].(*ssa.If); isIf && len(hb.Succs) == 2 && hb.Succs[0] != hb {
+		if _, ctr, ok := headerBound(hb); ok {
+			if bound, ok := lessThan(iff, ctr); ok {
+				switch t := ctr.(type) {
+				case *ssa.Phi:
+					if t.Block() == hb {
+						if entry, ok := entryOf(t); ok {
+							it := LoopIter{Idx: t, Bound: bound}
+							if k, isK := constI(entry); isK {
+								it.FromK = k
+							} else {
+								it.From = entry
+							}
+							return it, true
+						}
+					}
+				case *ssa.BinOp:
+					// rangeindex: idx = φ + 1, φ starts at -1
+					p, isPhi := t.X.(*ssa.Phi)
+					k, isK := constI(t.Y)
+					if isPhi && isK && t.Op == token.ADD && k == 1 && p.Block() == hb {
+						if entry, ok := entryOf(p); ok {
+							if e, isE := constI(entry); isE && e == -1 {
+								return LoopIter{Idx: t, Bound: bound}, true
+							}
+						}
+					}
+				}
+			}
+		}
+	}
+	// (2) rotated loop: the test `φ+1 < n` sits in the latch (possibly the header
+	// block itself when the body is a single block) and branches back to the header
+	for _, p := range hb.Preds {
+		if !hb.Dominates(p) {
+			continue
+		}
+		iff, isIf := p.Instrs[len(p.Instrs)-1].(*ssa.If)
+		if !isIf || len(p.Succs) != 2 || p.Succs[0] != hb {
+			continue
+		}
+		cmp, _ := iff.Cond.(*ssa.BinOp)
+		if cmp == nil {
+			continue
+		}
+		for _, side := range []ssa.Value{cmp.X, cmp.Y} {
+			inc, isB := side.(*ssa.BinOp)
+			if !isB || inc.Op != token.ADD {
+				continue
+			}
+			phi, isPhi := inc.X.(*ssa.Phi)
+			if k, isK := constI(inc.Y); !isPhi || !isK || k != 1 || phi.Block() != hb {
+				continue
+			}
+			bound, ok := lessThan(iff, inc)
+			if !ok {
+				continue
+			}
+			entry, ok := entryOf(phi)
+			if !ok {
+				continue
+			}
+			it := LoopIter{Idx: phi, Bound: bound}
+			if k, isK := constI(entry); isK {
+				it.FromK = k
+			} else {
+				it.From = entry
+			}
+			return it, true
+		}
+	}
+	return LoopIter{}, false
+}
+
+// tableElems: al is a local array (composite literal, or the backing array of
+// a slice literal) every element of which is stored exactly once, before
+// `before`, and which is otherwise only read. Returns the stored values.
+func (x *X) tableElems(al *ssa.Alloc, before ssa.Instruction) ([]ssa.Value, bool) {
+	arr, ok := deref(al.Type()).Underlying().(*types.Array)
+	if !ok || arr.Len() < 1 || arr.Len() > 64 || al.Referrers() == nil {
+		return nil, false
+	}
+	elems := make([]ssa.Value, arr.Len())
+	readOnly := func(v ssa.Value) bool {
+		ok := true
+		var walk func(v ssa.Value, d int)
+		walk = func(v ssa.Value, d int) {
+			if v.Referrers() == nil || d > 4 {
+				ok = false
+				return
+			}
+			for _, r := range *v.Referrers() {
+				switch y := r.(type) {
+				case *ssa.UnOp:
+					if y.Op != token.MUL {
+						ok = false
+					}
+				case *ssa.FieldAddr:
+					walk(y, d+1)
+				case *ssa.DebugRef:
+				default:
+					ok = false
+				}
+			}
+		}
+		walk(v, 0)
+		return ok
+	}
+	for _, r := range *al.Referrers() {
+		switch y := r.(type) {
+		case *ssa.IndexAddr:
+			k, isK := constI(y.Index)
+			var sts []*ssa.Store
+			for _, rr := range *y.Referrers() {
+				if st, isSt := rr.(*ssa.Store); isSt && st.Addr == ssa.Value(y) {
+					sts = append(sts, st)
+				}
+			}
+			if len(sts) == 0 {
+				if !readOnly(y) {
+					return nil, false
+				}
+				continue
+			}
+			if !isK || k < 0 || k >= arr.Len() || len(sts) != 1 || elems[k] != nil || !x.domI(sts[0], before) || len(*y.Referrers()) != 1 {
+				return nil, false
+			}
+			elems[k] = sts[0].Val
+		case *ssa.UnOp:
+			if y.Op != token.MUL {
+				return nil, false
+			}
+		case *ssa.Slice:
+			if y.Low != nil || y.High != nil || y.Max != nil || y.Referrers() == nil {
+				return nil, false
+			}
+			for _, rr := range *y.Referrers() {
+				switch z := rr.(type) {
+				case *ssa.IndexAddr:
+					if !readOnly(z) {
+						return nil, false
+					}
+				case *ssa.Call:
+					if ssa.Instruction(z) == before {
+						continue // the table is the variadic argument of the call being read
+					}
+					if b, isB := z.Call.Value.(*ssa.Builtin); !isB || (b.Name() != "len" && b.Name() != "cap") {
+						return nil, false
+					}
+				case *ssa.DebugRef:
+				default:
+					return nil, false
+				}
+			}
+		case *ssa.DebugRef:
+		default:
+			return nil, false
+		}
+	}
+	for _, e := range elems {
+		if e == nil {
+			return nil, false
+		}
+	}
+	return elems, true
+}
+
+// tableOf resolves the indexed operand of an Index / IndexAddr to a constant
+// local table.
+func tableOf(v ssa.Value) *ssa.Alloc {
+	switch t := v.(type) {
+	case *ssa.Alloc:
+		return t
+	case *ssa.UnOp:
+		if t.Op == token.MUL {
+			if al, ok := t.X.(*ssa.Alloc); ok {
+				return al
+			}
+		}
+	case *ssa.Slice:
+		if t.Low == nil && t.High == nil && t.Max == nil {
+			if al, ok := t.X.(*ssa.Alloc); ok {
+				return al
+			}
+		}
+	}
+	return nil
+}
+
+// tableLoop: the loop headed by hb runs i = 0..N-1 for a constant N and reads
+// element i of constant local tables of N elements. Returns, per iteration,
+// the values those reads yield.
+func (x *X) tableLoop(hb *ssa.BasicBlock) ([]map[ssa.Value]ssa.Value, bool) {
+	it, ok := x.Iter(hb)
+	if !ok || it.From != nil || it.FromK != 0 {
+		return nil, false
+	}
+	n := int64(-1)
+	if k, isK := constI(it.Bound); isK {
+		n = k
+	} else if call, isCall := it.Bound.(*ssa.Call); isCall {
+		if b, isB := call.Call.Value.(*ssa.Builtin); isB && b.Name() == "len" {
+			if al := tableOf(call.Call.Args[0]); al != nil {
+				if arr, isArr := deref(al.Type()).Underlying().(*types.Array); isArr {
+					n = arr.Len()
+				}
+			}
+		}
+	}
+	if n < 1 || n > 64 {
+		return nil, false
+	}
+	l := x.LoopOf(hb)
+	if l == nil || l.Header != hb {
+		return nil, false
+	}
+	envs := make([]map[ssa.Value]ssa.Value, n)
+	for k := range envs {
+		envs[k] = map[ssa.Value]ssa.Value{}
+	}
+	tables := map[*ssa.Alloc][]ssa.Value{}
+	elemsOf := func(v ssa.Value) ([]ssa.Value, bool) {
+		al := tableOf(v)
+		if al == nil {
+			return nil, false
+		}
+		if e, ok := tables[al]; ok {
+			return e, e != nil
+		}
+		e, ok := x.tableElems(al, hb.Instrs[0])
+		if !ok || int64(len(e)) != n {
+			tables[al] = nil
+			return nil, false
+		}
+		tables[al] = e
+		return e, true
+	}
+	found := false
+	bad := false
+	var bindReads func(addr ssa.Value, val func(k int) (ssa.Value, bool))
+	bindReads = func(addr ssa.Value, val func(k int) (ssa.Value, bool)) {
+		if addr.Referrers() == nil {
+			return
+		}
+		for _, r := range *addr.Referrers() {
+			switch y := r.(type) {
+			case *ssa.UnOp:
+				if y.Op != token.MUL {
+					continue
+				}
+				for k := range envs {
+					v, ok := val(k)
+					if !ok {
+						bad = true
+						return
+					}
+					envs[k][y] = v
+				}
+				found = true
+			case *ssa.FieldAddr:
+				f := y.Field
+				bindReads(y, func(k int) (ssa.Value, bool) {
+					v, ok := val(k)
+					if !ok {
+						return nil, false
+					}
+					return x.litField(v, f)
+				})
+			}
+		}
+	}
+	for b := range l.Blocks {
+		for _, in := range b.Instrs {
+			switch t := in.(type) {
+			case *ssa.Index:
+				if t.Index != it.Idx {
+					continue
+				}
+				e, ok := elemsOf(t.X)
+				if !ok {
+					continue
+				}
+				for k := range envs {
+					envs[k][t] = e[k]
+				}
+				found = true
+			case *ssa.IndexAddr:
+				if t.Index != it.Idx {
+					continue
+				}
+				e, ok := elemsOf(t.X)
+				if !ok {
+					continue
+				}
+				bindReads(t, func(k int) (ssa.Value, bool) { return e[k], true })
+			}
+		}
+	}
+	if !found || bad {
+		return nil, false
+	}
+	return envs, true
+}
+
+// unroll evaluates body once per iteration environment and concatenates.
+func (x *X) unroll(hb *ssa.BasicBlock, envs []map[ssa.Value]ssa.Value, body func() []Atom) ([]Atom, bool) {
+	out := []Atom{}
+	// struct locals of the loop body stand for something different in every
+	// iteration (a copy of table[i]…): their roots are re-derived per iteration
+	var locals []*ssa.Alloc
+	if l := x.LoopOf(hb); l != nil {
+		for _, b := range x.Fn.DomPreorder() {
+			if !l.Blocks[b] {
+				continue
+			}
+			for _, in := range b.Instrs {
+				if al, ok := in.(*ssa.Alloc); ok && isStruct(deref(al.Type())) {
+					locals = append(locals, al)
+				}
+			}
+		}
+	}
+	for _, env := range envs {
+		saved := map[ssa.Value]ssa.Value{}
+		for k, v := range env {
+			saved[k] = x.env[k]
+			x.env[k] = v
+		}
+		type rootSave struct {
+			p  string
+			ok bool
+		}
+		savedRoots := map[*ssa.Alloc]rootSave{}
+		for _, al := range locals {
+			p, ok := x.Roots[al]
+			savedRoots[al] = rootSave{p, ok}
+			delete(x.Roots, al)
+		}
+		for pass := 0; pass < 3; pass++ {
+			for _, al := range locals {
+				if _, done := x.Roots[al]; done {
+					continue
+				}
+				if p, ok := x.allocRoot(al); ok {
+					x.Roots[al] = p
+				}
+			}
+		}
+		b := body()
+		for _, al := range locals {
+			if sv := savedRoots[al]; sv.ok {
+				x.Roots[al] = sv.p
+			} else {
+				delete(x.Roots, al)
+			}
+		}
+		for k, v := range saved {
+			if v == nil {
+				delete(x.env, k)
+			} else {
+				x.env[k] = v
+			}
+		}
+		if b == nil {
+			return nil, false
+		}
+		out = append(out, b...)
+	}
+	return out, true
+}
+
 // repeatOf builds the repeat atom for the loop headed by hb: what it ranges over.
 func (x *X) repeatOf(hb *ssa.BasicBlock, pos token.Pos) Atom {
+	a := x.repeatOf1(hb, pos)
+	if a.Over != "?" {
+		a.Over += x.iterStart(hb)
+	}
+	return a
+}
+
+func (x *X) repeatOf1(hb *ssa.BasicBlock, pos token.Pos) Atom {
 	a := Atom{Kind: "repeat", Over: "?", Pos: pos, Loop: x.LoopOf(hb)}
 	bound, _, ok := loopBound(hb)
 	if !ok {
@@ -652,62 +1267,420 @@ func substAtoms(as []Atom, from, to string) []Atom {
 // headed by hb is compared against, and the counter.
 func LoopBound(hb *ssa.BasicBlock) (bound, counter ssa.Value, ok bool) { return loopBound(hb) }
 
-// inlineAppender: a call to an in-module helper func(buf []byte, v…) []byte
-// whose result is its first parameter extended by fixed atoms of its other
-// parameters (an extracted "put" helper) is read as those atoms applied to the
-// caller's arguments. Only the appended tail is returned.
-func (x *X) inlineAppender(call *ssa.Call) ([]Atom, bool) {
+// inlineAppender: a call to an in-module helper
+//
+//	func(buf []byte, v…) []byte      or      func(buf []byte, v…) ([]byte, error)
+//
+// (possibly a method) whose successful result is its buffer parameter extended
+// by atoms that are determined by its other parameters — an extracted "put"
+// helper, or a loop that appends every element of a section — is read as those
+// atoms applied to the caller's arguments: the helper is analysed with its
+// parameters bound to what the caller passes (field paths of the caller's
+// subject, or the argument values). Only the appended tail is returned, with
+// the caller-side buffer argument it extends.
+//
+// A helper that is not one of the codec units and returns a FRESH byte
+// sequence made from its arguments (func(name *T) ([]byte, error)) is read the
+// same way; then the returned buffer argument is nil and the atoms are the
+// whole sequence. This second form is only used when the rule has named its
+// codec units (X.Units), so that Encode/Decode pairs stay nested atoms.
+func (x *X) inlineAppender(call *ssa.Call) ([]Atom, ssa.Value, bool) {
 	cc := call.Common()
 	f := cc.StaticCallee()
 	if f == nil || f.Blocks == nil || !x.W.P.InModule(f) || cc.IsInvoke() || f == x.Fn {
-		return nil, false
+		return nil, nil, false
 	}
-	if f.Signature.Results().Len() != 1 || !isByteSeq(f.Signature.Results().At(0).Type()) {
-		return nil, false
+	res := f.Signature.Results()
+	switch {
+	case res.Len() == 1 && isByteSeq(res.At(0).Type()):
+	case res.Len() == 2 && isByteSeq(res.At(0).Type()) && types.TypeString(res.At(1).Type(), nil) == "error":
+	default:
+		return nil, nil, false
 	}
-	if len(cc.Args) == 0 || len(cc.Args) != len(f.Params) || !isByteSeq(cc.Args[0].Type()) {
-		return nil, false
+	if len(cc.Args) != len(f.Params) {
+		return nil, nil, false
 	}
+	depth := 0
 	for y := x; y != nil; y = y.Parent {
+		depth++
 		if y.Fn == f {
-			return nil, false
+			return nil, nil, false
 		}
 	}
-	child := New(x.W, f)
+	if depth > 3 {
+		return nil, nil, false
+	}
+	child := newX(x.W, f)
 	child.Parent = x
+	for i, p := range f.Params {
+		arg := x.res(cc.Args[i])
+		switch deref(p.Type()).Underlying().(type) {
+		case *types.Struct, *types.Slice, *types.Array:
+			if isByteSeq(p.Type()) {
+				break
+			}
+			if bp, ok := x.basePath(arg); ok {
+				child.Roots[p] = bp
+				continue
+			}
+		}
+		if isByteSeq(p.Type()) {
+			continue
+		}
+		fd, e, _, _ := x.desc(arg)
+		if fd == "" {
+			fd = e
+		}
+		child.Names[p] = fd
+	}
+	child.findRoots()
 	alts := child.EncLayouts()
-	if len(alts) != 1 || len(alts[0].Atoms) < 1 {
-		return nil, false
+	if len(alts) != 1 {
+		return nil, nil, false
 	}
 	as := alts[0].Atoms
-	if as[0].Kind != "bytes" || as[0].Val != ssa.Value(f.Params[0]) {
-		return nil, false
-	}
-	out := []Atom{}
-	for _, a := range as[1:] {
-		switch a.Kind {
-		case "const", "pad":
-			out = append(out, a)
-		case "fixed":
-			pv, isP := StripConv(a.Val).(*ssa.Parameter)
-			if !isP {
-				return nil, false
+	// appender: the result starts with the bytes of a []byte parameter
+	bufIdx := -1
+	if len(as) >= 1 && as[0].Kind == "bytes" {
+		for i, p := range f.Params {
+			if _, isSl := p.Type().Underlying().(*types.Slice); isSl && isByteSeq(p.Type()) && as[0].Val == ssa.Value(p) {
+				bufIdx = i
 			}
-			idx := -1
-			for i, q := range f.Params {
-				if q == pv {
-					idx = i
-				}
-			}
-			if idx < 0 {
-				return nil, false
-			}
-			na := x.valueAtom(cc.Args[idx], a.Width, a.Order, call)
-			na.Narrow = na.Narrow || a.Narrow
-			out = append(out, na)
-		default:
-			return nil, false
 		}
 	}
-	return out, true
+	if bufIdx < 0 {
+		// producer: a fresh byte sequence made from the arguments. Only for rules
+		// that name their codec units, and never for a unit itself.
+		if x.root().Units == nil || x.isUnit(f) || len(as) == 0 {
+			return nil, nil, false
+		}
+		if _, bad := HasUnknown(as); bad {
+			return nil, nil, false
+		}
+	}
+	paramIdx := func(v ssa.Value) int {
+		pv, isP := StripConv(v).(*ssa.Parameter)
+		if !isP {
+			return -1
+		}
+		for i, q := range f.Params {
+			if q == pv {
+				return i
+			}
+		}
+		return -1
+	}
+	var conv func(as []Atom) ([]Atom, bool)
+	conv = func(as []Atom) ([]Atom, bool) {
+		out := []Atom{}
+		for _, a := range as {
+			switch a.Kind {
+			case "const", "pad":
+				out = append(out, a)
+			case "fixed":
+				if idx := paramIdx(a.Val); idx >= 0 {
+					na := x.valueAtom(cc.Args[idx], a.Width, a.Order, call)
+					na.Narrow = na.Narrow || a.Narrow
+					out = append(out, na)
+					continue
+				}
+				if a.Field == "" && (a.Expr == "" || strings.Contains(a.Expr, "param ")) {
+					return nil, false
+				}
+				out = append(out, a)
+			case "bytes":
+				if idx := paramIdx(a.Val); idx >= 0 && idx != bufIdx {
+					out = append(out, x.enc(cc.Args[idx], call)...)
+					continue
+				}
+				if a.Field == "" {
+					return nil, false
+				}
+				out = append(out, a)
+			case "nested":
+				if a.Field == "" || a.Callee == nil {
+					return nil, false
+				}
+				out = append(out, a)
+			case "repeat":
+				if a.Over == "" || a.Over == "?" || strings.Contains(a.Over, "param ") {
+					return nil, false
+				}
+				b, ok := conv(a.Body)
+				if !ok {
+					return nil, false
+				}
+				a.Body = b
+				out = append(out, a)
+			default:
+				return nil, false
+			}
+		}
+		return out, true
+	}
+	if bufIdx < 0 {
+		out, ok := conv(as)
+		if !ok || len(out) == 0 {
+			return nil, nil, false
+		}
+		return out, nil, true
+	}
+	out, ok := conv(as[1:])
+	if !ok {
+		return nil, nil, false
+	}
+	return out, cc.Args[bufIdx], true
+}
+
+// ---------------------------------------------------------------------------
+// one buffer of run-time size, filled at computed offsets
+
+// lenSym: the canonical linear-form term for len(v).
+func (x *X) lenSym(v ssa.Value) Sym {
+	root, off, ok := x.bufRoot(v)
+	if !ok {
+		return SymT(v)
+	}
+	if k, isK := off.Const(); !isK || k != 0 {
+		return SymT(v)
+	}
+	if k, isK := root.(*ssa.Const); isK && k.Value != nil && k.Value.Kind() == constant.String {
+		return SymK(int64(len(constant.StringVal(k.Value))))
+	}
+	if c, ok := x.lenCanon[root]; ok {
+		return SymT(c)
+	}
+	x.lenCanon[root] = root
+	return SymT(root)
+}
+
+// nonNeg: the form is certainly >= 0: a non-negative constant plus
+// non-negative multiples of lengths.
+func (x *X) nonNeg(s Sym) bool {
+	if s.K < 0 {
+		return false
+	}
+	for t, k := range s.T {
+		if k < 0 {
+			return false
+		}
+		isLen := false
+		for _, c := range x.lenCanon {
+			if c == t {
+				isLen = true
+			}
+		}
+		if !isLen {
+			return false
+		}
+	}
+	return true
+}
+
+// viewOf resolves a slice value to (make, start offset) when it is the make
+// itself or buf[lo:] / buf[lo:hi] views of it with computable offsets.
+func (x *X) viewOf(v ssa.Value) (*ssa.MakeSlice, Sym, bool) {
+	off := SymK(0)
+	for d := 0; d < 8; d++ {
+		switch t := v.(type) {
+		case *ssa.MakeSlice:
+			return t, off, true
+		case *ssa.Slice:
+			if t.Max != nil {
+				return nil, off, false
+			}
+			if t.Low != nil {
+				off = off.Add(x.Sym(t.Low))
+			}
+			v = t.X
+			continue
+		case *ssa.ChangeType:
+			v = t.X
+			continue
+		}
+		break
+	}
+	return nil, off, false
+}
+
+type symWrite struct {
+	in       ssa.Instruction
+	off, end Sym
+	atoms    []Atom
+}
+
+// symBufContent: the layout of buf := make([]byte, n) (n computed at run time)
+// at instruction `at`, when every byte of it is written exactly once, outside
+// loops, by writes that dominate `at`: copy(buf[a:], src), PutUintN(buf[a:], v)
+// and buf[a] = v with offsets that are linear forms over lengths. The writes
+// must tile [0, n) without gap or overlap (a constant gap is zero bytes).
+func (x *X) symBufContent(mk *ssa.MakeSlice, at ssa.Instruction) []Atom {
+	if mk.Cap != nil && mk.Cap != mk.Len {
+		if k, isK := constI(mk.Len); !isK || k != 0 {
+			return unknown(mk.Pos(), "make with a run-time length and a different capacity")
+		}
+		return nil // make([]byte, 0, n): empty, to be extended by appends
+	}
+	total := x.Sym(mk.Len)
+	var ws []symWrite
+	bad := ""
+	var visit func(v ssa.Value, off Sym, hi *Sym, d int)
+	visit = func(v ssa.Value, off Sym, hi *Sym, d int) {
+		if v.Referrers() == nil || d > 6 {
+			return
+		}
+		for _, r := range *v.Referrers() {
+			switch y := r.(type) {
+			case *ssa.DebugRef, *ssa.Return:
+			case *ssa.Slice:
+				if y.X != v || y.Max != nil {
+					bad = "re-sliced with a capacity bound"
+					continue
+				}
+				o := off
+				if y.Low != nil {
+					o = o.Add(x.Sym(y.Low))
+				}
+				h := hi
+				if y.High != nil {
+					hs := off.Add(x.Sym(y.High))
+					h = &hs
+				}
+				visit(y, o, h, d+1)
+			case *ssa.ChangeType:
+				visit(y, off, hi, d+1)
+			case *ssa.Convert:
+				// string(buf): a read
+			case *ssa.IndexAddr:
+				o := off.Add(x.Sym(y.Index))
+				for _, rr := range *y.Referrers() {
+					switch z := rr.(type) {
+					case *ssa.Store:
+						if z.Addr != ssa.Value(y) {
+							bad = "address of an element stored"
+							continue
+						}
+						ws = append(ws, symWrite{z, o, o.AddK(1), []Atom{x.valueAtom(z.Val, 1, "", z)}})
+					case *ssa.UnOp, *ssa.DebugRef:
+					default:
+						bad = "address of an element escapes"
+					}
+				}
+			case *ssa.Store:
+				if y.Val == v {
+					bad = "buffer stored into a variable"
+				}
+			case *ssa.MakeClosure:
+				bad = "buffer captured by a closure"
+			case *ssa.Phi:
+				// the buffer flows on (e.g. to the return through a join): not a write
+			case *ssa.Call:
+				cc := y.Common()
+				if kind, w, order := binCall(y); kind == "put" {
+					if cc.Args[1] == v {
+						ws = append(ws, symWrite{y, off, off.AddK(int64(w)), []Atom{x.valueAtom(cc.Args[2], w, order, y)}})
+					}
+					continue
+				} else if kind == "get" {
+					continue
+				} else if kind == "append" {
+					if cc.Args[1] == v {
+						bad = "AppendUint on a buffer that is also written at offsets"
+					}
+					continue
+				}
+				if b, ok := cc.Value.(*ssa.Builtin); ok {
+					switch b.Name() {
+					case "len", "cap":
+					case "copy":
+						if cc.Args[0] == v {
+							n := x.lenSym(cc.Args[1])
+							if hi != nil && !x.nonNeg(hi.Sub(off.Add(n))) {
+								bad = "copy into a window that may be shorter than its source"
+							}
+							ws = append(ws, symWrite{y, off, off.Add(n), x.enc(cc.Args[1], y)})
+						}
+					case "append":
+						if cc.Args[0] == v {
+							if off.Equal(SymK(0)) {
+								// append(buf, more...) after the buffer was filled: handled by the caller (enc of append)
+								continue
+							}
+							bad = "append to a window of the buffer"
+						}
+					default:
+						bad = "passed to builtin " + b.Name()
+					}
+					continue
+				}
+				for _, a := range cc.Args {
+					if a == v {
+						bad = "buffer passed to " + x.exprString(y, 0)
+					}
+				}
+			default:
+				bad = fmt.Sprintf("used by %T", r)
+			}
+		}
+	}
+	visit(mk, SymK(0), nil, 0)
+	if bad != "" {
+		return unknown(mk.Pos(), "make with variable length %s: %s", x.exprString(mk.Len, 0), bad)
+	}
+	if len(ws) == 0 {
+		return unknown(mk.Pos(), "make with variable length %s is never written at a computable offset", x.exprString(mk.Len, 0))
+	}
+	for _, w := range ws {
+		if x.LoopOf(w.in.Block()) != x.LoopOf(mk.Block()) {
+			return unknown(w.in.Pos(), "the buffer is written inside a loop")
+		}
+		if !x.domI(w.in, at) {
+			if x.pathExists(w.in, at, nil) {
+				return unknown(w.in.Pos(), "a conditional write into the buffer may reach its use")
+			}
+		}
+	}
+	var out []Atom
+	cur := SymK(0)
+	used := make([]bool, len(ws))
+	for n := 0; n < len(ws); n++ {
+		pick, gap := -1, int64(0)
+		for i, w := range ws {
+			if used[i] || !x.domI(w.in, at) {
+				continue
+			}
+			d := w.off.Sub(cur)
+			if k, isK := d.Const(); isK && k >= 0 && (pick < 0 || k < gap) {
+				pick, gap = i, k
+			}
+		}
+		if pick < 0 {
+			break
+		}
+		used[pick] = true
+		if gap > 0 {
+			out = append(out, Atom{Kind: "pad", Width: int(gap)})
+		}
+		w := ws[pick]
+		// the write must fit: end <= total
+		if !x.nonNeg(total.Sub(w.end)) {
+			return unknown(w.in.Pos(), "a write may run past the end of the buffer (%s > %s)", x.SymString(w.end), x.SymString(total))
+		}
+		out = append(out, w.atoms...)
+		cur = w.end
+	}
+	for i, w := range ws {
+		if !used[i] && x.domI(w.in, at) {
+			return unknown(w.in.Pos(), "writes into the buffer overlap or are not contiguous (one starts at %s, the previous ended at %s)", x.SymString(w.off), x.SymString(cur))
+		}
+	}
+	rest := total.Sub(cur)
+	k, isK := rest.Const()
+	switch {
+	case !isK || k < 0:
+		return unknown(mk.Pos(), "the writes end at %s but the buffer has %s bytes", x.SymString(cur), x.SymString(total))
+	case k > 0:
+		out = append(out, Atom{Kind: "pad", Width: int(k)})
+	}
+	return out
 }
